@@ -22,6 +22,7 @@ func (e *Eval) bindParams(env *Env, fr *Frame) {
 	for i, p := range fr.fn.Params {
 		if i < len(fr.params) {
 			env.bind(p.Name(), fr.params[i], p.Type())
+			env.bind(p.Name()+"0", fr.params[i], p.Type()) // entry value (parameters are mutable)
 		}
 	}
 }
@@ -188,6 +189,24 @@ func (e *Eval) frameObligations(k *Contract, fn *ssa.Function, env *Env, oc Outc
 					elemSlices = append(elemSlices, tv)
 				}
 			}
+		case strings.HasPrefix(m, "maps(") && strings.HasSuffix(m, ")"):
+			if ex, err := ParseSpecExpr(m[5 : len(m)-1]); err == nil {
+				if t := env.typeExpr(ex); t != nil {
+					if mt, ok := t.Underlying().(*types.Map); ok {
+						dom, val := e.mapComps(mt)
+						allowedAll[dom], allowedAll[val] = true, true
+					}
+				}
+			}
+		case strings.HasPrefix(m, "mapof(") && strings.HasSuffix(m, ")"):
+			if ex, err := ParseSpecExpr(m[6 : len(m)-1]); err == nil {
+				tv := env.eval(ex)
+				if mt, ok := tv.Ty.Underlying().(*types.Map); ok {
+					dom, val := e.mapComps(mt)
+					allowedIdx[dom] = append(allowedIdx[dom], tv.T)
+					allowedIdx[val] = append(allowedIdx[val], tv.T)
+				}
+			}
 		case strings.HasPrefix(m, "type:"):
 			parts := strings.SplitN(m[5:], ".", 2)
 			if t := env.lookupType(parts[0]); t != nil && isStruct(t) {
@@ -289,12 +308,16 @@ func (c *Ctx) Query(o *Obligation, wantModel bool) string {
 		b.WriteString("(set-option :produce-models true)\n")
 	}
 	b.WriteString("(set-logic ALL)\n")
-	var dt strings.Builder
-	for _, d := range c.decls {
+	var dt, late strings.Builder
+	for i, d := range c.decls {
 		dt.WriteString(d)
 		dt.WriteByte('\n')
+		if i >= c.nbase && !strings.HasPrefix(d, "(declare-fun |un") && !strings.HasPrefix(d, "(declare-fun |box") {
+			late.WriteString(d)
+			late.WriteByte('\n')
+		}
 	}
-	all := dt.String() + bt
+	all := late.String() + bt
 	b.WriteString(dt.String())
 	for _, l := range c.lazy {
 		if strings.Contains(all, l.trigger) {
